@@ -471,6 +471,14 @@ pub struct MDL {
 }
 
 impl MDL {
+    /// Reads the NUL-terminated name at `offset` of the string block, or None if the offset is
+    /// outside the block or the name is not terminated.
+    fn read_name(strings: &[u8], offset: u32) -> Option<String> {
+        let name = strings.get(offset as usize..)?;
+        let len = name.iter().position(|c| *c == 0)?;
+        Some(name[..len].iter().map(|c| *c as char).collect())
+    }
+
     pub fn from_existing(buffer: ByteSpan) -> Option<MDL> {
         let mut cursor = Cursor::new(buffer);
         let model_file_header = ModelFileHeader::read(&mut cursor).ok()?;
@@ -484,33 +492,13 @@ impl MDL {
         let mut affected_bone_names = vec![];
 
         for offset in &model.bone_name_offsets {
-            let mut offset = *offset;
-            let mut string = String::new();
-
-            let mut next_char = model.header.strings[offset as usize] as char;
-            while next_char != '\0' {
-                string.push(next_char);
-                offset += 1;
-                next_char = model.header.strings[offset as usize] as char;
-            }
-
-            affected_bone_names.push(string);
+            affected_bone_names.push(MDL::read_name(&model.header.strings, *offset)?);
         }
 
         let mut material_names = vec![];
 
         for offset in &model.material_name_offsets {
-            let mut offset = *offset;
-            let mut string = String::new();
-
-            let mut next_char = model.header.strings[offset as usize] as char;
-            while next_char != '\0' {
-                string.push(next_char);
-                offset += 1;
-                next_char = model.header.strings[offset as usize] as char;
-            }
-
-            material_names.push(string);
+            material_names.push(MDL::read_name(&model.header.strings, *offset)?);
         }
 
         let mut lods = vec![];
@@ -776,18 +764,8 @@ impl MDL {
                             vertex.position[2] = new_vertex.position[2] - old_vertex.position[2];
                         }
 
-                        let mut offset = shape.string_offset;
-                        let mut string = String::new();
-
-                        let mut next_char = model.header.strings[offset as usize] as char;
-                        while next_char != '\0' {
-                            string.push(next_char);
-                            offset += 1;
-                            next_char = model.header.strings[offset as usize] as char;
-                        }
-
                         shapes.push(Shape {
-                            name: string,
+                            name: MDL::read_name(&model.header.strings, shape.string_offset)?,
                             morphed_vertices,
                         });
                     }
